@@ -871,6 +871,11 @@ class DotOperator(BinaryOperator):
 
 
     def term(self, time="t"):
+        """A dot product is a sum of products: it is used as one unit by whatever expression it is nested in."""
+        term = self._term(time)
+        return term if term == "0.0" else "(" + term + ")"
+
+    def _term(self, time="t"):
         """
             Calculating matrix/vector multiplication is complex..
             Following rules are taken into account:
@@ -928,7 +933,7 @@ class DotOperator(BinaryOperator):
                     for i in range(dim1[0]):
                         result += "({}) * ({}) + ".format(
                             self.element_1[i].term(time), self.element_2[i].term(time))
-                    return "(" + result[:-3] + ")"
+                    return result[:-3]
             return "0.0"
 
         # Value
